@@ -63,7 +63,7 @@ def law_cases(ctx: Ctx, masked: bool):
 def record_law(c):
     from .. import drive_laws as dl
     kind, args = c
-    return {"cat": dl.cat_case, "bern": dl.bern_case, "multi": dl.multi_case, "cont": dl.cont_case}[kind](*args)
+    return {"cat": dl.cat_case, "bern": dl.bern_case, "multi": dl.multi_case, "cont": dl.cont_case, "batched": dl.batched_case}[kind](*args)
 
 
 def judge(ctx: Ctx, rep: Report, pid: str, evs: list, cases: list, tag: str):
